@@ -126,7 +126,7 @@ Laws ==
      \* errexit: nothing is observed that would not be observed without it,
      \* the run is cut at the first non-exempt failure and not before, and
      \* the status of an errexit exit is that of the failing command
-     /\ (Ok(A) /\ Ok(B)) =>
+     /\ (Ok(A) /\ Ok(B) /\ ~HasKind({"trap"})) =>
           /\ IsSubseq(B.tr, A.tr)
           /\ (~HasKind({"sub", "pipe"})) => IsPrefix(B.tr, A.tr)
           /\ B.fired => B.st # 0 /\ B.x = "exit"
@@ -141,7 +141,7 @@ Laws ==
                /\ Ok(W) /\ W.nt = 1 /\ W.st = N.st
                /\ W.tr = Append(N.tr, <<0, N.st>>)
      \* `!` changes nothing but the status (errexit off)
-     /\ Ok(A) =>
+     /\ (Ok(A) /\ ~HasKind({"trap"})) =>
           LET N == Run(NotOf(t), Opt(0, 0, 0))
           IN /\ Ok(N) /\ N.tr = A.tr
              /\ N.st = IF A.x = "exit" THEN A.st ELSE IF A.st = 0 THEN 1 ELSE 0
@@ -201,12 +201,13 @@ AlphaLoops ==
 ItemsLoops == {ITEM("a", 0), ITEM("b", 0)}
 
 \* C02: loop status rules (TickLimit = 3)
-AlphaLoops2 == {MK1, PR, TICK, CNT(1), T0("while"), T0("until"), T0("seq"), T0("or")}
+AlphaLoops2 == {MK1, TICK, CNT(1), T0("while"), T0("seq"), T0("or"), T0("and")}
 
 \* C02: functions, return, command search
 AlphaFuncs ==
   {MK0, MK1, PR, RET(-1), RET(5), RET(0), EXIT(4), BRK(1), CMD("f"), CMD("g"), CMD("true"),
    CW(CMD("f")), CW(CMD("true")), CW(RET(5)), CW(BRK(1)), DEFN("f"), DEFN("g"), DEFN("true"),
+   CMD("status"), CW(CMD("status")), DEFN("status"),
    FOR("ab"), T0("seq"), T0("and"), T0("sub"), T0("not"), T0("pipe"), T0("if")}
 
 \* C02: case
@@ -232,6 +233,11 @@ AlphaErrors ==
 AlphaSyn ==
   {MK0, MK1, PR, EXIT(4), T0("asg"), CMD("nosuch"), T0("seq"), T0("and"), T0("sub"), T0("if"),
    DEFN("f"), CMD("f"), FOR("ab"), T0("trap")}
+
+\* everything at once (laws on tiny programs, action coverage)
+AlphaAll == AlphaFlow \cup AlphaAndOr \cup AlphaLoops \cup AlphaFuncs \cup AlphaCase \cup AlphaErrexit
+            \cup AlphaErrors \cup AlphaSyn
+ItemsAll == ItemsCase
 
 NoItems == {}
 =============================================================================
